@@ -21,7 +21,8 @@ TECHNIQUE = ("runtime contract (icontract ensure) on the real lex(): positions r
              "filter invariants, location_to_index cross-check and comparison with the raw Pygments stream; exhaustive "
              "short strings over a boundary alphabet + generated, hostile and real-world texts")
 RULE = ("one case = (language, text, filter flag); boundary family: all strings up to the length bound over "
-        "{a, space, newline, tab, '(', '\"', comment leader, e-acute} per language, enumerated exhaustively; plus the union "
+        "{a, space, newline, tab, '(', '\"', comment leader, e-acute} per language, enumerated exhaustively, and all strings one "
+        "shorter over {a, newline, FF, CR, LS, NEL, VT, '('}; plus the union "
         "workload (canonical programs, every prefix/suffix of small programs, line/token mutations, token soups, targeted "
         "shapes, vendored corpus with cuts); non-trivial = at least 2 kept tokens; distinct = distinct (language, text)")
 ASSUMPTIONS = ["Pygments' get_tokens_unprocessed offsets and token types are the trusted base",
@@ -78,6 +79,8 @@ class LexContract:
             ctx.eval()
             try:
                 toks = self.lex(lexer, text, flag)
+                if len(ctx.samples) < 3 and 3 <= len(toks) <= 8 and "\n" in text and not flag:
+                    ctx.sample({"language": language, "text": text, "tokens": [[t.location.line, t.location.column, t.value] for t in toks]})
                 if len(toks) >= 2:
                     ctx.count("cases.with_two_or_more_tokens")
                 if any("\n" in t.value.rstrip("\n") for t in toks):
@@ -104,6 +107,16 @@ def run(shard, ctx):
                 c.run(lang, "".join(s), "boundary")
                 ctx.count("cases.boundary")
                 ctx.count("distinct.counted_in_shard")
+        # second exhaustive family: characters that other line-splitting conventions treat as line breaks
+        exotic = ["a", "\n", "\x0c", "\r", "\u2028", "\x85", "\x0b", "("]
+        for n in range(1, shard["blen"]):
+            for s in itertools.product(exotic, repeat=n):
+                k += 1
+                if k % shard["parts"] != shard["part"]:
+                    continue
+                c.run(lang, "".join(s), "boundary_exotic_separators")
+                ctx.count("cases.boundary_exotic_separators")
+                ctx.count("distinct.counted_in_shard")
         # the union workload is split over the shards of this language by index
         j = 0
         for cls, text in texts(lang, rng_for(shard["seed"], "c16w", lang), shard["seed"], shard["sizes"]):
@@ -115,7 +128,6 @@ def run(shard, ctx):
             ctx.distinct([lang, text])
             if cls == "corpus":
                 ctx.count("corpus.files")
-        ctx.sample({"language": lang, "boundary_example": "a (\n\t\"é", "alphabet": alpha})
 
 
 def replay(case, ctx):
